@@ -761,7 +761,7 @@ func (st *lsmState) txnReads(x *seqExec, txn *Txn, ts uint64, who string) (strin
 	for _, k := range st.keys {
 		want := st.modelRead(k, ts)
 		if got := get[k]; got != want {
-			return "read-changed/get", fmt.Sprintf("%s: Get(%q)@%d = %v, model %v\n  lsm: %s", who, k, ts, fmtObs(got), fmtObs(want), shapeString(x.db))
+			return st.resurrectClass(x, k, got, want, "read-changed/get"), fmt.Sprintf("%s: Get(%q)@%d = %v, model %v\n  lsm: %s", who, k, ts, fmtObs(got), fmtObs(want), shapeString(x.db))
 		}
 		for name, m := range map[string]map[string]readObs{"forward": fwd, "reverse": rev} {
 			got, ok := m[k]
@@ -769,11 +769,33 @@ func (st *lsmState) txnReads(x *seqExec, txn *Txn, ts uint64, who string) (strin
 				got = readObs{Val: "<nil>"}
 			}
 			if got != want {
-				return "read-changed/iter", fmt.Sprintf("%s: %s iterator key %q@%d = %v, model %v\n  lsm: %s", who, name, k, ts, fmtObs(got), fmtObs(want), shapeString(x.db))
+				return st.resurrectClass(x, k, got, want, "read-changed/iter"), fmt.Sprintf("%s: %s iterator key %q@%d = %v, model %v\n  lsm: %s", who, name, k, ts, fmtObs(got), fmtObs(want), shapeString(x.db))
 			}
 		}
 	}
 	return "", ""
+}
+
+// resurrectClass refines the failure class when a deleted key reads back a value after a
+// value-log GC ran later than the delete (the GC write-back re-inserts the old version on top of
+// the LSM tree, where it outlives the tombstone: known finding F12).
+func (st *lsmState) resurrectClass(x *seqExec, k string, got, want readObs, class string) string {
+	if want.Val != "<nil>" || got.Val == "<nil>" {
+		return class
+	}
+	lastDel, lastGC := -1, -1
+	for i, op := range x.trace {
+		if op == "D"+k {
+			lastDel = i
+		}
+		if op == "G" {
+			lastGC = i
+		}
+	}
+	if lastDel >= 0 && lastGC > lastDel {
+		return "deleted-key-resurrected/tombstone-dropped-after-gc"
+	}
+	return class
 }
 
 func fmtObs(o readObs) string { return fmt.Sprintf("{%s v%d}", shortVal(o.Val), o.Ver) }
